@@ -226,7 +226,7 @@ def run(ctx):
         # filter: none, or a random subset of the method names
         flt = None
         if all_methods and g.rng.random() < 0.3:
-            flt = g.rng.sample(all_methods, g.rng.randint(1, 6))
+            flt = g.rng.sample(all_methods, g.rng.randint(0, 6))      # the empty subset too: an empty report
         req = sx.dumps(tag("metrics", flt if flt is not None else Sym("none"), spec.fm_sx(m)))
         mrep = canon_model(sx.loads(ctx.model.call_raw(req)))
         fm = spec.build_fm(m)
